@@ -27,13 +27,15 @@ open Auth
     interleave, for any checker function (strict or not), on both accept paths — as long as the
     accept-hook chain has not returned OK: no call/push/unknown handler has run, no per-message hook
     stage has run, the reader goroutine does not exist, no handler goroutine exists, the read loop
-    has consumed nothing, the status is not `Ok`, the session is not listed, and everything the
-    server has written is an AUTH_REPLY. -/
-theorem C16_no_handler_before_auth (lis strict : Bool) (s : St) (r : Reach (init lis strict) s)
+    has consumed nothing, the status is not `Ok`, the session is not listed under any id — unless the
+    checker function itself renamed it: `session.SetID` enters a session that is being prepared in
+    the hub (that listing ends with the rejection, see `C16_rejected_unlisted_any_id`) — and
+    everything the server has written is an AUTH_REPLY. -/
+theorem C16_no_handler_before_auth (lis strict : Bool) (others : List Nat) (s : St) (r : Reach (init lis strict others) s)
     (h : s.authPassed = false) :
     s.handlerCount = 0 ∧ s.messageHookCount = 0 ∧ s.rd = none ∧ s.hs = [] ∧ s.loopRead = [] ∧
-    s.status ≠ .ok ∧ s.inHub = false ∧ ∀ o ∈ s.out, ∃ c, o = .authReply c := by
-  have q := (reach_inv (sinv_init lis strict) r).quiet h
+    s.status ≠ .ok ∧ (s.renamed = false → s.inHub = false) ∧ ∀ o ∈ s.out, ∃ c, o = .authReply c := by
+  have q := (reach_inv (sinv_init lis strict others) (hinv_init lis strict others) r).quiet h
   simp only [quiet] at q
   refine ⟨q.1, by simp [St.messageHookCount, q.2.1, q.2.2.1], q.2.2.2.1, q.2.2.2.2.1, q.2.2.2.2.2.2.1,
     q.2.2.2.2.2.2.2.2.1, q.2.2.2.2.2.2.2.1, q.2.2.2.2.2.2.2.2.2⟩
@@ -58,10 +60,10 @@ example : ∃ s, Reach (init false true) s ∧ s.authPassed = true ∧ s.handler
     the one thing the gate consumed from the client is a well-formed AUTH_CALL frame with OK status:
     whatever else the client sent first (CALL, PUSH, REPLY, wrong type, garbage, nothing, a cut,
     silence until the deadline) the connection cannot pass. -/
-theorem C16_passed_means_authenticated (lis : Bool) (s : St) (r : Reach (init lis true) s)
+theorem C16_passed_means_authenticated (lis : Bool) (others : List Nat) (s : St) (r : Reach (init lis true others) s)
     (h : s.authPassed = true) :
     ∃ f, s.preRead = [.frame f] ∧ f.kind = .authCall ∧ f.stOk = true ∧ s.recvLog = [.ok] := by
-  have i := reach_inv (sinv_init lis true) r
+  have i := reach_inv (sinv_init lis true others) (hinv_init lis true others) r
   have hs : s.strict = true := (reach_cfg r).1
   have hacc : s.acc.accepting = true := passed_accepting _ (by rw [← i.passed_iff]; exact h)
   have hl := i.strict_ok hs hacc
@@ -70,18 +72,18 @@ theorem C16_passed_means_authenticated (lis : Bool) (s : St) (r : Reach (init li
 
 /-- the same, read from the observable side: anything that needs the session machinery implies
     `authPassed`. -/
-theorem C16_activity_implies_passed (lis strict : Bool) (s : St) (r : Reach (init lis strict) s)
-    (h : s.status = .ok ∨ 0 < s.handlerCount ∨ 0 < s.messageHookCount ∨ s.inHub = true ∨
+theorem C16_activity_implies_passed (lis strict : Bool) (others : List Nat) (s : St) (r : Reach (init lis strict others) s)
+    (h : s.status = .ok ∨ 0 < s.handlerCount ∨ 0 < s.messageHookCount ∨ (s.inHub = true ∧ s.renamed = false) ∨
          s.rd ≠ none ∨ s.loopRead ≠ []) : s.authPassed = true := by
   cases hp : s.authPassed with
   | true => rfl
   | false =>
-    have q := C16_no_handler_before_auth lis strict s r hp
+    have q := C16_no_handler_before_auth lis strict others s r hp
     rcases h with h | h | h | h | h | h
     · exact absurd h q.2.2.2.2.2.1
     · omega
     · omega
-    · simp [q.2.2.2.2.2.2.1] at h
+    · simp [q.2.2.2.2.2.2.1 h.2] at h
     · exact absurd q.2.2.1 h
     · exact absurd q.2.2.2.2.1 h
 
@@ -89,14 +91,14 @@ theorem C16_activity_implies_passed (lis strict : Bool) (s : St) (r : Reach (ini
     (it may call `RecvOnce` any number of times): `PreReceive` of the exchange executes at most once
     and consumes at most one unit of client traffic; with a strict checker it has executed exactly
     once whenever the status is `Ok` (or anything else of the session machinery has happened). -/
-theorem C16_exchange_once (lis strict : Bool) (s : St) (r : Reach (init lis strict) s) :
+theorem C16_exchange_once (lis strict : Bool) (others : List Nat) (s : St) (r : Reach (init lis strict others) s) :
     s.exch ≤ 1 ∧ s.preRead.length ≤ 1 ∧ (strict = true → s.status = .ok → s.exch = 1) := by
-  have i := reach_inv (sinv_init lis strict) r
+  have i := reach_inv (sinv_init lis strict others) (hinv_init lis strict others) r
   have he : s.exch ≤ 1 := by have := i.exch_eq; split at this <;> omega
   refine ⟨he, Nat.le_trans i.pre_len he, fun hs hok => ?_⟩
   subst hs
-  have hp := C16_activity_implies_passed lis true s r (.inl hok)
-  obtain ⟨f, h1, _, _, _⟩ := C16_passed_means_authenticated lis s r hp
+  have hp := C16_activity_implies_passed lis true others s r (.inl hok)
+  obtain ⟨f, h1, _, _, _⟩ := C16_passed_means_authenticated lis others s r hp
   have := i.pre_len; rw [h1] at this; simp at this; omega
 
 example : ∃ s, Reach (init false true) s ∧ s.status = .ok ∧ s.exch = 1 := by
@@ -117,26 +119,94 @@ example : (applyEvs (init false false) [.arrive (.frame fAuth), .arrive (.frame 
     per-message hook has run, no reader exists; only the connection-level disconnect hook has run
     (once). Since this is a statement about all reachable states, it also holds at every later
     time: nothing can revive the connection. -/
-theorem C16_rejected_closed_unlisted (lis strict : Bool) (s : St) (r : Reach (init lis strict) s)
+theorem C16_rejected_closed_unlisted (lis strict : Bool) (others : List Nat) (s : St) (r : Reach (init lis strict others) s)
     (st : Int) (ha : s.acc = .done st) (hst : st ≠ 0) :
     s.authPassed = false ∧ s.status = .activeClosed ∧ s.sockClosed = true ∧ s.inHub = false ∧
     s.handlerCount = 0 ∧ s.messageHookCount = 0 ∧ s.rd = none ∧ s.discHook = 1 := by
-  have i := reach_inv (sinv_init lis strict) r
+  have i := reach_inv (sinv_init lis strict others) (hinv_init lis strict others) r
   have hp : s.authPassed = false := by
     have h0 : (st == 0) = false := by simpa using hst
     have := i.passed_iff; rw [ha] at this; simpa [APc.passed, h0] using this
   have rj := i.rej hp
   simp only [rejInv, ha] at rj
-  have q := C16_no_handler_before_auth lis strict s r hp
-  exact ⟨hp, rj.2.2.1, rj.2.2.2.1, q.2.2.2.2.2.2.1, q.1, q.2.1, q.2.2.1, rj.2.2.2.2⟩
+  have q := C16_no_handler_before_auth lis strict others s r hp
+  exact ⟨hp, rj.2.2.1, rj.2.2.2.1, rj.2.2.2.2.2, q.1, q.2.1, q.2.2.1, rj.2.2.2.2.1⟩
+
+
+/-- **A rejected connection is listed under no id — whatever the checker did with the id.** The
+    checker function is handed the session and may rename it any number of times, before or after
+    `RecvOnce`, to a fresh id, to its own id or to the id of another live session of the peer
+    (`Ev.setId`; a session that is being prepared ENTERS the hub by `SetID`), and read the peer
+    (`Ev.peek`), and then accept, reject, return `MultiRecvErr`, panic, or fail because of a
+    deadline / a cut / a failed reply write. In every reachable state in which the accept path has
+    returned a non-OK status, no hub entry refers to the connection: `GetSession(id)` is not this
+    session for ANY id (in particular for every id the connection ever had, `s.ids`), no entry of
+    the index (`RangeSession`, `CountSession`) is this session. -/
+theorem C16_rejected_unlisted_any_id (lis strict : Bool) (others : List Nat) (s : St)
+    (r : Reach (init lis strict others) s) (st : Int) (ha : s.acc = .done st) (hst : st ≠ 0) :
+    (∀ id, s.hub.get id ≠ some 0) ∧ (∀ id ∈ s.ids, s.hub.get id ≠ some 0) ∧
+    (∀ kv ∈ s.hub, kv.2 ≠ 0) ∧ s.inHub = false := by
+  have u := (C16_rejected_closed_unlisted lis strict others s r st ha hst).2.2.2.1
+  have m := (inHub_false_iff s).1 u
+  have g : ∀ id, s.hub.get id ≠ some 0 := fun id c => m _ (HubL.mem_of_get c) rfl
+  exact ⟨g, fun id _ => g id, m, u⟩
+
+/-- non-vacuity: a checker that reads the credentials, names the session after the claimed user
+    (id 5) and then rejects: the connection had two ids, it WAS listed (under 5, not under 0) while
+    the exchange ran, and it ends rejected with an empty hub. The same when the exchange times out
+    after the renaming (silent client), when the checker panics after it, and when the id taken is
+    the one of another live session (which is replaced and closed, `kicked`). -/
+example : ∃ s, Reach (init false true) s ∧ s.acc = .done 403 ∧ s.ids = [0, 5] ∧ s.renamed = true ∧
+    s.hub = [] := by
+  exact ⟨_, run_reach { items := [.frame fAuth], script := { verdict := .reject 403, post := [.setId 5] } },
+    by decide⟩
+example : ∃ s, Reach (init false true) s ∧ s.authPassed = false ∧ s.inHub = true ∧
+    s.hub.get 5 = some 0 ∧ s.hub.get 0 = none ∧ s.status = .preparing := by
+  refine ⟨applyEvs (init false true) [.arrive (.frame fAuth), .recvOnce false, .setId 5], applyEvs_reach _ _, ?_⟩
+  decide
+example : (runCase { items := [], fin := .silent, script := { pre := [.setId 5, .peek] } }).acc = .done 102 ∧
+    (runCase { items := [], fin := .silent, script := { pre := [.setId 5, .peek] } }).hub = [] ∧
+    (runCase { items := [], fin := .silent, script := { pre := [.setId 5, .peek] } }).peeks = [(true, 1)] := by decide
+example : (runCase { items := [.frame fAuth], script := { verdict := .panic, post := [.setId 5, .setId 6] } }).acc = .done 500 ∧
+    (runCase { items := [.frame fAuth], script := { verdict := .panic, post := [.setId 5, .setId 6] } }).ids = [0, 5, 6] ∧
+    (runCase { items := [.frame fAuth], script := { verdict := .panic, post := [.setId 5, .setId 6] } }).hub = [] := by decide
+example : (runCase { others := [7, 8], items := [.frame fAuth], script := { verdict := .reject 401, post := [.setId 7] } }).hub = [(8, 2)] ∧
+    (runCase { others := [7, 8], items := [.frame fAuth], script := { verdict := .reject 401, post := [.setId 7] } }).kicked = [0] := by decide
+
+/-- **Never listed under a former id** (all states, accepted connections too): whenever
+    `GetSession(id)` is this session, `id` is its current id, and the current id is the last of the
+    ids it had. Renaming leaves nothing behind under the old id. -/
+theorem C16_listed_only_under_current_id (lis strict : Bool) (others : List Nat) (s : St)
+    (r : Reach (init lis strict others) s) :
+    (∀ id, s.hub.get id = some 0 → id = s.sid) ∧ s.ids.getLast? = some s.sid := by
+  have g := reach_hinv (sinv_init lis strict others) (hinv_init lis strict others) r
+  exact ⟨fun id c => g.selfAt _ (HubL.mem_of_get c) rfl, g.cur⟩
+
+/-- an accepted connection that the checker renamed is listed under the new id only. -/
+example : (runCase { items := [.frame fAuth], fin := .silent, script := { post := [.setId 5] } }).acc = .done 0 ∧
+    (applyEvs (init false true) [.arrive (.frame fAuth), .recvOnce false, .setId 5, .ckReturn .accept,
+      .sendReply 0, .branch, .accStep, .accStep]).hub = [(5, 0)] := by decide
+
+/-- **The sessions of other connections are left alone** (all states): under every id that this
+    connection never had, the hub is what it was when the connection arrived — whatever the
+    checker did, whatever the verdict. (Under an id it took, the previous holder is replaced and
+    closed by `SessionHub.set`, as for any `SetID`.) -/
+theorem C16_other_sessions_untouched (lis strict : Bool) (others : List Nat) (s : St)
+    (r : Reach (init lis strict others) s) (id : Nat) (hid : id ∉ s.ids) :
+    s.hub.get id = (init lis strict others).hub.get id :=
+  (reach_frame (sinv_init lis strict others) (hinv_init lis strict others) r id hid).2
+
+example : ∃ s, Reach (init false true [7, 8]) s ∧ 8 ∉ s.ids ∧ s.ids = [0, 7] ∧ s.hub.get 8 = some 2 := by
+  exact ⟨_, run_reach { others := [7, 8], items := [.frame fAuth], script := { verdict := .reject 401, post := [.setId 7] } },
+    by decide⟩
 
 /-- a non-OK result of the accept-hook chain always leads to that end: from the decision point the
     accepting goroutine's own steps (`Close()` stages, return) are all enabled — nothing it waits
     for can be outstanding, because no handler exists. -/
-theorem C16_rejected_terminates (lis strict : Bool) (s : St) (r : Reach (init lis strict) s)
+theorem C16_rejected_terminates (lis strict : Bool) (others : List Nat) (s : St) (r : Reach (init lis strict others) s)
     (st : Int) (ha : s.acc = .decided st) (hst : st ≠ 0) :
     ∃ t, Reach s t ∧ t.acc = .done st := by
-  have i := reach_inv (sinv_init lis strict) r
+  have i := reach_inv (sinv_init lis strict others) (hinv_init lis strict others) r
   have hp : s.authPassed = false := by
     have := i.passed_iff; rw [ha] at this; simpa [APc.passed] using this
   have rj := i.rej hp
@@ -157,13 +227,13 @@ example : ∃ s, Reach (init false true) s ∧ s.acc = .decided 401 := by
     pending; and the read loop consumes only after authentication passed. Hence an application frame
     written in the same packet as the AUTH_CALL stays in the socket's buffer until the status is `Ok`
     and is then the first thing the read loop sees. -/
-theorem C16_pipelined_frames_not_lost_or_early (lis strict : Bool) (s : St)
-    (r : Reach (init lis strict) s) :
+theorem C16_pipelined_frames_not_lost_or_early (lis strict : Bool) (others : List Nat) (s : St)
+    (r : Reach (init lis strict others) s) :
     s.arrived = s.preRead ++ s.loopRead ++ s.pending ∧ s.preRead.length ≤ 1 ∧
     (s.loopRead ≠ [] → s.authPassed = true) := by
-  have i := reach_inv (sinv_init lis strict) r
-  exact ⟨i.conserve, (C16_exchange_once lis strict s r).2.1,
-    fun h => C16_activity_implies_passed lis strict s r (.inr (.inr (.inr (.inr (.inr h)))))⟩
+  have i := reach_inv (sinv_init lis strict others) (hinv_init lis strict others) r
+  exact ⟨i.conserve, (C16_exchange_once lis strict others s r).2.1,
+    fun h => C16_activity_implies_passed lis strict others s r (.inr (.inr (.inr (.inr (.inr h)))))⟩
 
 /- Full-strength "and are processed" (progress) statement, for every pipeline `fs` of application
    frames behind a valid AUTH_CALL, under the scheduler that the harness compares with the real code:
@@ -319,6 +389,90 @@ example : modelAccept false = ["cas:statusOk<-statusPreparing", "reader", "call:
 example : modelAccept true = ["call:sessHub.set", "cas:statusOk<-statusPreparing", "reader"] := by decide
 
 end TieA
+
+/-! ## tie A — the two hub sites the rejection relies on, as they are in the source NOW
+
+`SetID` is the second site (besides the accept paths) that enters a session in the hub, and it does so
+for a session that is still being prepared; `closeLocked` — what the reject branch runs — is the site
+that takes it out again. The model's `evSetId` / `evCloseStep` are compared with the regenerated
+flows of both functions. -/
+
+section TieHub
+open SrcFlow
+
+def closerKey : CPc → String
+  | .hubdel => "call:sessHub.delete" | .notify => "call:notifyClosed" | .waitCtx => "wg:ctx.Wait"
+  | .setClosed => "store:statusActiveClosed" | .sockClose => "call:socket.Close" | .hook => "stage:postDisconnect"
+
+/-- the stages the model's closer goes through after its compare-and-swap, in order. -/
+def closerTrace : Nat → St → List String
+  | 0, _ => []
+  | n + 1, s =>
+    match s.closer, step s .closeStep with
+    | some c, some t => closerKey c :: closerTrace n t
+    | _, _ => []
+
+def modelCloserKeys : List String := closerTrace 8 (startClose (init false true))
+
+def statName : SStat → String
+  | .preparing => "statusPreparing" | .ok => "statusOk" | .activeClosing => "statusActiveClosing"
+  | .activeClosed => "statusActiveClosed" | .passiveClosing => "statusPassiveClosing"
+  | .passiveClosed => "statusPassiveClosed"
+
+def allStats : List SStat := [.preparing, .ok, .activeClosing, .activeClosed, .passiveClosing, .passiveClosed]
+
+/-- statuses from which the model's `Close()` proceeds (`startClose`). -/
+def closeFromModel : List SStat :=
+  allStats.filter fun st => (startClose { init false true with status := st }).closer.isSome
+
+/-- statuses in which the model's `SetID` enters the session in the hub. -/
+def setIdRegisters : List SStat :=
+  allStats.filter fun st =>
+    match evSetId { init false true with status := st } 5 with
+    | some t => t.hub.get 5 == some 0
+    | none => false
+
+def names (l : List SStat) : String := ",".intercalate (l.map statName)
+
+/-- **`Close()` takes the session out of the hub unconditionally; `SetID` enters a session that is
+    being prepared (tie A).** In `session.closeLocked` as it is now: the compare-and-swap to
+    `ActiveClosing` from exactly the statuses from which the model's close proceeds (Ok, Preparing),
+    its failing branch returns, and then — in the model's order, none of them under any condition —
+    `sessHub.delete(s.ID(), s)`, `notifyClosed`, the waits, the store of `ActiveClosed`,
+    `socket.Close`, the disconnect hook. In `session.SetID` as it is now: return on an unchanged id;
+    one status check (exactly the statuses in which the model's `SetID` registers: Preparing, Ok)
+    whose failing branch returns; then `sessHub.set(s)` and `sessHub.delete(oldID, s)`
+    unconditionally; a second check of the same statuses guards the extra
+    `sessHub.delete(newID, s)`. Making the removal in `closeLocked` depend on anything (the status
+    before the close, a "registered" flag), dropping it, or changing the statuses in which `SetID`
+    registers, changes the regenerated flows and this theorem no longer checks. -/
+theorem C16_close_unlists_setid_registers :
+    Gen.transitions_missing = [] ∧
+    without ["wg:call.Wait"] (keys (mainFlow Gen.flow_session_closeLocked)) =
+      ("cas:statusActiveClosing<-" ++ names [.ok, .preparing]) :: modelCloserKeys ∧
+    sameSet [SStat.ok, SStat.preparing] closeFromModel = true ∧
+    modelCloserKeys.length = 6 ∧
+    ((mainFlow Gen.flow_session_closeLocked).filter fun e => e.kind != "return").all (fun e => e.guards.isEmpty) = true ∧
+    ((mainFlow Gen.flow_session_closeLocked).filter fun e => e.is "call" "sessHub.delete").map (fun e => (e.x, e.use)) =
+      [("argc=2", "ignored")] ∧
+    nextAfter (fun e => e.kind == "cas") 2 Gen.flow_session_closeLocked =
+      some [("return:", ["!$.tryChangeStatus(statusActiveClosing,statusOk,statusPreparing)"]), ("call:sessHub.delete", [])] ∧
+    (mainFlow Gen.flow_session_SetID).map (fun e => (e.key, e.x, e.use, e.guards)) =
+      [("return:", "", "", ["% == %"]),
+       ("check:" ++ names setIdRegisters, "", "fail-return", []),
+       ("return:", "", "", ["!$.checkStatus(" ++ names setIdRegisters ++ ")"]),
+       ("call:sessHub.set", "argc=1", "ignored", []),
+       ("call:sessHub.delete", "argc=2", "ignored", []),
+       ("check:" ++ names setIdRegisters, "", "fail-fallthrough", []),
+       ("call:sessHub.delete", "argc=2", "ignored", ["!$.checkStatus(" ++ names setIdRegisters ++ ")"])] ∧
+    setIdRegisters = [.preparing, .ok] := by
+  decide
+
+/-- non-vacuity: the model's closer order, spelled out. -/
+example : modelCloserKeys = ["call:sessHub.delete", "call:notifyClosed", "wg:ctx.Wait",
+    "store:statusActiveClosed", "call:socket.Close", "stage:postDisconnect"] := by decide
+
+end TieHub
 
 end C16
 end Teleport
